@@ -1034,3 +1034,126 @@ theorem Sim3.never_ahead {P : Prog} {g : Bool} {c d : Cfg} (h : Sim3 P g c d) : 
     have h2 := (sh_fields (unint_same c).1).2.2.2.2.2.2.2.2.2.2.2.1
     exact TraceExt.of_eq (by rw [← h1, h2])
   · exact (Sim.never_ahead (P := P) (Or.inr (Or.inr hs)))
+
+/-! ### the reference history `unpaused3` is again an erasure; the third class contains the second -/
+
+theorem evImage3_cases (g : Bool) (c : Cfg) (x : Ev) :
+    evImage3 g c x = [] ∧ (x = .tick ∨ x = .pause ∨ x = .play) ∨ evImage3 g c x = [x] ∧ x ≠ .pause ∧ x ≠ .play := by
+  have ne1 : Ev.tick ≠ Ev.pause := by intro h; cases h
+  have ne2 : Ev.tick ≠ Ev.play := by intro h; cases h
+  cases x with
+  | pause => exact Or.inl ⟨rfl, Or.inr (Or.inl rfl)⟩
+  | play => exact Or.inl ⟨rfl, Or.inr (Or.inr rfl)⟩
+  | tick =>
+    by_cases h1 : heldPc c = true
+    · by_cases h2 : (g && runsBody c) = true
+      · exact Or.inr ⟨by simp only [evImage3, h1, h2, if_true], ne1, ne2⟩
+      · exact Or.inl ⟨by simp only [evImage3, h1, h2, if_true, if_false]; rfl, Or.inl rfl⟩
+    · by_cases h2 : (waitInterrupted c && heldB (rearm c)) = true
+      · exact Or.inl ⟨by simp only [evImage3, h1, h2, if_true, if_false]; rfl, Or.inl rfl⟩
+      · exact Or.inr ⟨by simp only [evImage3, h1, h2, if_false]; rfl, ne1, ne2⟩
+  | tickCb cb => exact Or.inr ⟨rfl, (by intro h; cases h), (by intro h; cases h)⟩
+  | kill => exact Or.inr ⟨rfl, (by intro h; cases h), (by intro h; cases h)⟩
+  | resume v => exact Or.inr ⟨rfl, (by intro h; cases h), (by intro h; cases h)⟩
+  | fail e => exact Or.inr ⟨rfl, (by intro h; cases h), (by intro h; cases h)⟩
+  | cancelFut => exact Or.inr ⟨rfl, (by intro h; cases h), (by intro h; cases h)⟩
+  | complete f o => exact Or.inr ⟨rfl, (by intro h; cases h), (by intro h; cases h)⟩
+  | callSoon r => exact Or.inr ⟨rfl, (by intro h; cases h), (by intro h; cases h)⟩
+
+theorem unpaused3_no_pp (P : Prog) : ∀ (evs : List Ev) (g : Bool) (c : Cfg), ∀ e ∈ unpaused3 P g c evs, e ≠ .pause ∧ e ≠ .play := by
+  intro evs
+  induction evs with
+  | nil => intro g c e he; simp [unpaused3] at he
+  | cons x rest ih =>
+    intro g c e he
+    simp only [unpaused3, List.mem_append] at he
+    rcases he with he | he
+    · rcases evImage3_cases g c x with ⟨h1, _⟩ | ⟨h1, h2⟩
+      · rw [h1] at he; cases he
+      · rw [h1] at he; simp at he; subst he; exact h2
+    · exact ih _ _ e he
+
+theorem erasePP_cons_keep (x : Ev) (es : List Ev) (h1 : x ≠ .pause) (h2 : x ≠ .play) : erasePP (x :: es) = x :: erasePP es := by
+  cases x <;> first | rfl | exact absurd rfl h1 | exact absurd rfl h2
+
+theorem unpaused3_sublist (P : Prog) : ∀ (evs : List Ev) (g : Bool) (c : Cfg), (unpaused3 P g c evs).Sublist (erasePP evs) := by
+  intro evs
+  induction evs with
+  | nil => intro g c; exact List.Sublist.slnil
+  | cons x rest ih =>
+    intro g c
+    have := ih (nextG3 g c x) (step P c x).1
+    simp only [unpaused3]
+    rcases evImage3_cases g c x with ⟨h1, h2⟩ | ⟨h1, h2, h3⟩
+    · rw [h1]
+      rcases h2 with rfl | rfl | rfl
+      · exact List.Sublist.cons _ this
+      · exact this
+      · exact this
+    · rw [h1, erasePP_cons_keep x rest h2 h3]
+      exact List.Sublist.cons_cons _ this
+
+theorem unpaused3_nonticks (P : Prog) : ∀ (evs : List Ev) (g : Bool) (c : Cfg),
+    (unpaused3 P g c evs).filter (fun e => !isTick e) = (erasePP evs).filter (fun e => !isTick e) := by
+  intro evs
+  induction evs with
+  | nil => intro g c; rfl
+  | cons x rest ih =>
+    intro g c
+    have := ih (nextG3 g c x) (step P c x).1
+    simp only [unpaused3]
+    rcases evImage3_cases g c x with ⟨h1, h2⟩ | ⟨h1, h2, h3⟩
+    · rw [h1]
+      rcases h2 with rfl | rfl | rfl
+      · simpa [erasePP, isTick] using this
+      · simpa [erasePP] using this
+      · simpa [erasePP] using this
+    · rw [h1, erasePP_cons_keep x rest h2 h3]
+      simp only [List.cons_append, List.nil_append, List.filter_cons]
+      rw [this]
+
+theorem admissible2_sub3 (P : Prog) : ∀ (evs : List Ev) (g g' : Bool) (c : Cfg), (g = true → g' = true) →
+    admissible2 P g c evs = true → admissible3 P g' c evs = true := by
+  intro evs
+  induction evs with
+  | nil => intro g g' c _ _; rfl
+  | cons x rest ih =>
+    intro g g' c hgg h
+    simp only [admissible2, Bool.and_eq_true] at h
+    simp only [admissible3, Bool.and_eq_true]
+    have hng : nextG g c x = true → nextG3 g' c x = true := by
+      cases x with
+      | tick =>
+        simp only [nextG, nextG3]
+        intro hh
+        simp only [Bool.and_eq_true] at hh
+        rw [if_pos hh.1.1, hgg hh.2, hh.1.2]; rfl
+      | pause => exact hgg
+      | play => exact hgg
+      | _ =>
+        simp only [nextG, nextG3]
+        intro hh
+        split
+        · rfl
+        · rename_i hne
+          rw [if_neg hne] at hh
+          exact hgg hh
+    refine ⟨?_, ih _ _ _ hng h.2⟩
+    by_cases h1 : x = .tick
+    · subst h1; rfl
+    · by_cases h2 : x = .pause
+      · subst h2; rfl
+      · by_cases h3 : x = .play
+        · subst h3; rfl
+        · obtain ⟨hw, hok⟩ := evAllowed2_wake g c x h.1 h1 h2 h3
+          have hok3 : wakeOk3 g' c = true := by
+            simp only [wakeOk, Bool.or_eq_true, Bool.and_eq_true] at hok
+            simp only [wakeOk3, Bool.or_eq_true, Bool.not_eq_true']
+            rcases hok with hq | ⟨_, hg | hp⟩
+            · left; left
+              cases hh : heldPc c with
+              | false => rfl
+              | true => rw [quiet_not_held c hh] at hq; cases hq
+            · left; right; exact hgg hg
+            · right; exact hp
+          cases x <;> first | (simp [evAllowed3, hw, hok3]) | exact absurd rfl h1 | exact absurd rfl h2 | exact absurd rfl h3
